@@ -108,9 +108,13 @@ def _models():
         b = SX.q_of(ex.deref(a[0]))
         e = ex.deref(a[1])
         if isinstance(e, SX.Obj) and e.adt == "array" and len(e.fields) == 1 and _isint(e.fields[0]) and b is not None and not _isint(ex.deref(a[0])):
-            r = Q.const(1)
-            for _ in range(e.fields[0]):
-                r = r * b
+            r, k, sq = Q.const(1), e.fields[0], b
+            while k:
+                if k & 1:
+                    r = r * sq
+                k >>= 1
+                if k:
+                    sq = sq * sq
             return r
         return NotImplemented
 
@@ -324,6 +328,21 @@ def _models():
                 return NotImplemented
         return SX.Obj(adt="()")
 
+    def _fold(ex, st, fr, t, a):
+        if len(a) != 3:
+            return NotImplemented
+        items = _range_items(ex, a[0])
+        if items is None:
+            items = _elems(ex, a[0])
+        if items is None:
+            return NotImplemented
+        acc = a[1]
+        for it in items:
+            acc = _call_value(ex, st, a[2], [acc, it])
+            if acc is SX.TOP:
+                return NotImplemented
+        return acc
+
     def _collect(ex, st, fr, t, a):
         d = ex.deref(a[0]) if len(a) == 1 else None
         if isinstance(d, SX.Obj) and d.adt == "pyiter":
@@ -377,6 +396,7 @@ def _models():
         md.on(SX.by("core::cmp::PartialEq", "ne"), _enum_eq(True))
         md.on(SX.by(None, "map"), _map)
         md.on(SX.by(None, "for_each"), _for_each)
+        md.on(SX.by(None, "fold"), _fold)
         md.on(SX.by(None, "collect"), _collect)
         md.on(SX.by(None, "log2"), _int1(lambda n: 0 if n <= 1 else (n - 1).bit_length()))
         md.on(SX.by(None, "reverse_bits"), _int1(lambda x: int(format(x & (2 ** 64 - 1), "064b")[::-1], 2)))
@@ -401,7 +421,8 @@ def _models():
         md.on(SX.by(None, "len"), _len)
         md.on(SX.by("core::convert::From", "from"), _ident)
         md.on(SX.by("core::convert::TryFrom", "try_from"), _try_from)
-        md.on(SX.by(None, "unwrap"), _unwrap)
+        md.on(SX.by(None, ("unwrap", "expect")), _unwrap)
+        md.on(SX.by(None, "next_power_of_two"), _int1(lambda n: 1 if n <= 1 else 1 << (n - 1).bit_length()))
         md.on(SX.by(None, "checked_pow"), _checked_pow)
         md.on(SX.by(None, "pow"), _pow)
         md.on(SX.by(None, "from_elem"), _from_elem)
@@ -539,3 +560,89 @@ def check_dft_radix2(res, facts, tier):
                 rule.bad(key, "the transform is not the DFT of size %d in the generator it is given: %s" % (n, msg), fns[0].loc)
             else:
                 rule.ok(key, "all %d outputs equal the DFT sums modulo Phi_%d" % (n, n), fns[0].loc)
+
+
+def check_root_order(res, facts):
+    """FftField::get_root_of_unity(n), decided in the exponent domain: the configured roots are the symbols L (large-subgroup
+    root, order 2^s q^k) and T (2-adic root, order 2^s); with small concrete parameters (s = 4, q = 3, k = 2) the body is
+    evaluated for every n in a range: the result must be Some(L^e) or Some(T^e) with order(L)/gcd(e, order(L)) = n exactly
+    when n = 2^a q^b with a <= s, b <= k (resp. n = 2^a, a <= s, for a field without a small subgroup), and None for every
+    other n.  Independent of how the powering is organised (loops, one exponentiation, early returns)."""
+    from math import gcd
+    rule = res.rule("R-ROOT.order", "get_root_of_unity(n) returns an element of order exactly n for every admissible n and None otherwise [evaluation in the exponent domain with s = 4, q = 3, k = 2, all n <= 160 and a few larger ones]", 0)
+    fns = [f for f in facts.fns(unit="ws", crate="ark_ff") if f.name == "get_root_of_unity" and f.kind != "Closure" and (f.default_of or "").endswith("FftField")]
+    if not fns:
+        rule.bad("ark_ff|get_root_of_unity|order", "anchor missing")
+        return False
+    fn = fns[0]
+    S, QB, K = 4, 3, 2
+    worlds = {
+        "small subgroup": ({"LARGE_SUBGROUP_ROOT_OF_UNITY": SX.some(Q.var("L")), "SMALL_SUBGROUP_BASE": SX.some(QB), "SMALL_SUBGROUP_BASE_ADICITY": SX.some(K)}, True),
+        "two-adic only": ({"LARGE_SUBGROUP_ROOT_OF_UNITY": SX.none(), "SMALL_SUBGROUP_BASE": SX.none(), "SMALL_SUBGROUP_BASE_ADICITY": SX.none()}, False),
+    }
+    ns = list(range(0, 161)) + [256, 288, 432, 2 ** 20, 3 ** 5 * 4]
+    decided = []
+    for wname, (env0, small) in worlds.items():
+        key = "ark_ff|get_root_of_unity|%s" % wname
+        env = dict(env0)
+        env.update({"TWO_ADICITY": S, "TWO_ADIC_ROOT_OF_UNITY": Q.var("T")})
+        orders = {"L": (2 ** S) * (QB ** K), "T": 2 ** S}
+        verdict = None
+        for n in ns:
+            ex = SX.Engine(facts, "ws", _models(), env=env, max_paths=4, max_depth=6, inline_limit=400, max_visits=5000)
+            try:
+                paths = [p for p in ex.run(fn, [n]) if "panic" not in p.flags]
+            except RecursionError:
+                verdict = ("noverdict", "recursion limit")
+                break
+            if len(paths) != 1 or paths[0].flags:
+                verdict = ("noverdict", "n = %d: not evaluable (%s)" % (n, sorted(paths[0].flags)[:4] if paths else "no path"))
+                break
+            r = paths[0].ret
+            # admissible n
+            a = b = 0
+            m = n
+            while m and m % 2 == 0:
+                m //= 2
+                a += 1
+            while small and m and m % QB == 0:
+                m //= QB
+                b += 1
+            admissible = n >= 1 and m == 1 and a <= S and b <= K
+            if isinstance(r, SX.Obj) and r.variant == "None":
+                if admissible:
+                    verdict = ("bad", "n = %d is admissible (2^%d * %d^%d) but no root is returned" % (n, a, QB, b))
+                    break
+                continue
+            if not (isinstance(r, SX.Obj) and r.variant == "Some"):
+                verdict = ("noverdict", "n = %d: result is not an Option value" % n)
+                break
+            v = SX.q_of(r.fields.get(0))
+            if v is None or not v.is_poly() or len(v.n.t) > 1:
+                verdict = ("noverdict", "n = %d: result %s is not a power of a configured root" % (n, r.fields.get(0)))
+                break
+            (mono, c), = list(v.n.t.items()) or [((), 1)]
+            if c != 1 or len(mono) > 1 or (mono and mono[0][0] not in orders):
+                verdict = ("noverdict", "n = %d: result %s is not a power of one configured root" % (n, v))
+                break
+            if not mono:
+                order = 1
+            else:
+                base, e = mono[0]
+                order = orders[base] // gcd(e, orders[base])
+            if not admissible:
+                verdict = ("bad", "n = %d is not of the form %s within the configured adicities, but Some(%s) is returned" % (n, "2^a * q^b" if small else "2^a", v))
+                break
+            if order != n:
+                verdict = ("bad", "n = %d: the returned element %s has order %d (orders: L = 2^%d * %d^%d, T = 2^%d), not %d" % (n, v, order, S, QB, K, S, n))
+                break
+        if verdict is None:
+            rule.ok(key, "%d values of n: element of order exactly n for admissible n, None otherwise" % len(ns), fn.loc)
+            decided.append(True)
+        elif verdict[0] == "bad":
+            rule.bad(key, verdict[1], fn.loc)
+            decided.append(True)
+        else:
+            rule.noverdict(key, "shape not modelled (%s)" % verdict[1], fn.loc)
+            decided.append(False)
+    return len(decided) == 2 and all(decided)
